@@ -249,7 +249,7 @@ def check(ctx):
                 for l, r, a_ in C.assignments(st):
                     mp = C.member_path(l) or ''
                     if mp.endswith('->blob_type'):
-                        kinds |= set(x['referencedDecl']['name'] for x in C.walk(r) if x.get('kind') == 'DeclRefExpr' and x.get('referencedDecl', {}).get('kind') == 'EnumConstantDecl')
+                        kinds |= set(x['referencedDecl']['name'] for x in C.walk(r) if x.get('kind') == 'DeclRefExpr' and x.get('referencedDecl', {}).get('kind') == 'EnumConstantDecl' and x['referencedDecl']['name'].startswith('BLOB_TYPE_'))
                     elif mp.endswith('->gtype_name') and C.int_value(r) != 0:
                         named = True
             if named:
